@@ -118,8 +118,8 @@ func vfH_Burst() {
 		mon.inClear = true
 		c.Clear()
 		mon.inClear = false
-		vfAfterClear(c, mon, nk, maxCost, metrics)
 		vfReleasedOnce(mon)
+		vfAfterClear(c, mon, nk, maxCost, metrics)
 	case 2:
 		mon.inClear = true
 		c.Close()
@@ -288,6 +288,7 @@ func vfAfterClose(c *Cache[uint64, vfVal], mon *vfMon) {
 	c.Wait()
 	c.Clear()
 	c.Close()
+	vfQuiesce()
 	vfAssert(vfThreadsLive() == 0, "C15.goroutines-stopped")
 }
 
